@@ -100,6 +100,15 @@ func (w *vWorld) signedVAA(k *common.MessagePublication, gs *common.GuardianSet,
 	return b
 }
 
+func vContains(l []int, x int) bool {
+	for _, y := range l {
+		if y == x {
+			return true
+		}
+	}
+	return false
+}
+
 // one generated history; shape describes what it exercises
 func vGenHistory(t *testing.T, ctx context.Context, w *vWorld, id int) *vHistory {
 	r := w.r
@@ -130,6 +139,22 @@ func vGenHistory(t *testing.T, ctx context.Context, w *vWorld, id int) *vHistory
 		members1[r.below(n)] = perm + n + 1
 	} else {
 		members1 = append(members1, perm+n+1)
+	}
+	// ... and every third history changes the size of the set as well (shrinks to about half, or grows by two)
+	switch r.below(6) {
+	case 0:
+		if n >= 3 {
+			keep := (n + 1) / 2
+			var mm []int
+			for _, m := range members1 {
+				if len(mm) < keep || m == -1 && !vContains(mm, -1) {
+					mm = append(mm, m)
+				}
+			}
+			members1 = mm
+		}
+	case 1:
+		members1 = append(members1, perm+n+2, perm+n+3)
 	}
 	gs1 := w.set(members1, gs0.Index+1)
 	shape := fmt.Sprintf("n=%d own=%d", n, ownPos)
@@ -206,7 +231,7 @@ func vGenHistory(t *testing.T, ctx context.Context, w *vWorld, id int) *vHistory
 			bag = append(bag, ev{kind: "junk", mi: mi, arg: r.below(9)})
 		}
 		if r.chance(1, 3) {
-			bag = append(bag, ev{kind: "inbound", mi: mi, arg: r.below(7)})
+			bag = append(bag, ev{kind: "inbound", mi: mi, arg: r.below(8)})
 		}
 		bag = append(bag, ev{kind: "loop"})
 	}
@@ -341,6 +366,14 @@ func vGenHistory(t *testing.T, ctx context.Context, w *vWorld, id int) *vHistory
 				b := w.signedVAA(k, curSet, curMembers, all)
 				b[6+1+r.below(64)] ^= 1
 				ok = dr.opInbound(b, "bad-signature")
+			case 7: // a single valid signature of a current member, wrapped into a VAA that names another set index: far below quorum
+				v := dr.vaaOfMsg(k, curSet.Index+1+uint32(r.below(2)))
+				pos := r.below(len(curSet.Keys))
+				v.AddSignature(w.key(curMembers[pos]), uint8(pos))
+				b, _ := v.Marshal()
+				if q >= 2 {
+					ok = dr.opInbound(b, "other-index-under-quorum")
+				}
 			case 6: // different body for an id that may already be stored
 				k2 := *k
 				k2.Payload = append([]byte{1}, r.bytes(10)...)
